@@ -17,6 +17,23 @@ FIXTURE = {"fixtures/app/index.txt": "hello", "fixtures/app/sub/file": "x", "Car
            # (the crate's own buildpack depends on the other one: packaging it means packaging both, dependency first)
            "buildpack.toml": COMPOSITE % ("vp/meta2", "vp/meta"), "package.toml": '[buildpack]\nuri = "."\n\n[[dependencies]]\nuri = "libcnb:vp/meta"\n\n[[dependencies]]\nuri = "docker://docker.io/heroku/procfile-cnb:2.0.1"\n',
            "meta/buildpack.toml": COMPOSITE % ("vp/meta", "heroku/procfile"), "meta/package.toml": '[buildpack]\nuri = "."\n\n[[dependencies]]\nuri = "docker://docker.io/heroku/procfile-cnb:2.0.1"\n'}
+FIXTURE.update({"../canary/precious.txt": "outside the app, outside every temporary directory", "../canary/sub/deep.txt": "deep", "../canary/sub/ro/file": "read-only dir"})
+CANARY_WANT = {"precious.txt": "outside the app, outside every temporary directory", "sub/deep.txt": "deep", "sub/ro/file": "read-only dir"}
+
+
+def canary_damage(env):
+    """what is wrong with the directory next to the crate that the runs only ever link to"""
+    bad = []
+    for rel, content in CANARY_WANT.items():
+        p = os.path.join(env.root, "canary", rel)
+        try:
+            if open(p).read() != content:
+                bad.append("%s changed" % rel)
+        except OSError as e:
+            bad.append("%s: %s" % (rel, e.strerror))
+    return bad
+
+
 LOCAL_REFS = [["@crate"], ["@ws:vp/meta", "heroku/procfile"], ["@ws:vp/meta2", "@crate"]]
 CONTAINER_OPS = [{"op": "logs_now"}, {"op": "address_for_port", "port": 8080}, {"op": "shell_exec", "command": "ps"}, {"op": "logs_wait"}]
 CCONF = {"entrypoint": "web", "command": ["--serve"], "env": [["PORT", "8080"]], "ports": [8080, 9090], "mounts": []}
@@ -24,7 +41,8 @@ CCONF = {"entrypoint": "web", "command": ["--serve"], "env": [["PORT", "8080"]],
 
 def bconf(pre=False, expected="success", builder="heroku/builder:24"):
     return {"builder": builder, "app_dir": "fixtures/app", "buildpacks": ["heroku/procfile"], "env": [["A", "1"], ["B", "2"]],
-            "preprocessor": {"add": [["added.txt", "new"]], "remove": ["index.txt"]} if pre else None, "expected": expected}
+            # (the preprocessor also links a directory from outside into its copy of the app: cleaning up the copy removes the link, not what it points to)
+            "preprocessor": {"add": [["added.txt", "new"]], "remove": ["index.txt"], "symlink": [["vendor-link", "@crate/../canary"], ["file-link", "@crate/../canary/precious.txt"]]} if pre else None, "expected": expected}
 
 
 def leaf_nodes():
@@ -257,6 +275,9 @@ def run_tree(env, tidx, tree, sh):
         return
     if not judge(log, left, rc, what, base_fault, sh, dict(case0, fault=base_fault)):
         return
+    if canary_damage(env):
+        sh.violation("outside-removed:none", "%s: files outside the app and outside every temporary directory were removed or changed: %r" % (what, canary_damage(env)), dict(case0, fault=base_fault))
+        return
     ncmds = len(log)
     faults = [{"kind": "command", "seq": j, "command_kind": log[j]["kind"]} for j in range(ncmds)]
     faults += [{"kind": "command", "seq": j, "command_kind": log[j]["kind"], "output": "big-unicode"} for j in range(ncmds) if (j + tidx) % 2 == 0]
@@ -315,6 +336,9 @@ def run_tree(env, tidx, tree, sh):
             sh.inconclusive.append("%s: the scripted command failure never fired" % what)
             continue
         if not judge(log2, left, rc, what, fault, sh, case):
+            return
+        if canary_damage(env):
+            sh.violation("outside-removed:%s" % fault["kind"], "%s: files outside the app and outside every temporary directory were removed or changed: %r" % (what, canary_damage(env)), case)
             return
         sh.nontrivial.add((shape_of(body), cfg["expected"], bool(cfg.get("preprocessor")), position_class(body, fault, log)))
         sh.count("faults_injected")
